@@ -220,4 +220,6 @@ package x509
 //@ may panic
 //@ site asn1.Unmarshal#1 as um
 //@ site UnmarshalWithParams#1 as lax
-//@ at lax assert [lax-retry-on-the-same-remaining-input-and-target] lax.b == before(um, asn1Data) && lax.params == "lax" && lax.val == um.val
+//@ loop 1 invariant forall j int :: 0 <= j && j < len(v) ==> v[j] != nil
+//@ loop 2 invariant forall j int :: 0 <= j && j < len(v) ==> v[j] != nil
+//@ at lax assert [lax-retry-on-the-same-remaining-input-and-target] lax.b == um.b && lax.params == "lax" && lax.val == um.val
